@@ -437,3 +437,71 @@ def idnear(kinds, i, swap, real=False):
 
 def idnear_real(kinds, i, swap):
     return idnear(kinds, i, swap, real=True)
+
+
+# ------------------------------------------------------------------ an earlier call on the same pair of streams
+def _two_calls(first_end, reuse, g0, g1, g2, T1, real):
+    """call 1 (id A, timeout T1) ends by (0) timeout, (1) a matching error, (2) a matching result; call 2 follows on
+    the SAME streams with the same id (reuse) or another one, and two responses arrive for it (for another id: a late
+    response to A first).  Call 2 completes with the FIRST incoming response bearing its id."""
+    from symcheck.env import TICKS_PER_SEC
+
+    idA = "call-A"
+    id2 = idA if reuse else "call-B"
+    script = []
+    if first_end == 1:
+        script.append((g0, JSONRPCMessage(jsonrpc="2.0", id=idA, error={"code": ERR_CODE, "message": "E"})))
+    elif first_end == 2:
+        script.append((g0, JSONRPCMessage(jsonrpc="2.0", id=idA, result={"first": True})))
+    base = (T1 if first_end == 0 else g0) + 1
+    a, b = base + g1, base + g1 + g2
+    if reuse:
+        script.append((a, JSONRPCMessage(jsonrpc="2.0", id=id2, result={"v": 1})))
+        script.append((b, JSONRPCMessage(jsonrpc="2.0", id=id2, result={"v": 2})))
+    else:
+        script.append((a, JSONRPCMessage(jsonrpc="2.0", id=idA, result={"late": True})))
+        script.append((b, JSONRPCMessage(jsonrpc="2.0", id=id2, result={"v": 1})))
+    T2 = 400
+
+    async def both(r, w):
+        res = {}
+        try:
+            v = await SM.send_message(r, w, METHOD, dict(PARAMS), timeout=(T1 / TICKS_PER_SEC if real else Ticks(T1)), message_id=idA)
+            res["first"] = ("result", v)
+        except TimeoutError:
+            res["first"] = ("timeout", None)
+        except ERR.RetryableError as e:
+            res["first"] = ("retryable", e.code)
+        try:
+            v = await SM.send_message(r, w, METHOD, dict(PARAMS), timeout=(T2 / TICKS_PER_SEC if real else Ticks(T2)), message_id=id2)
+            res["second"] = ("result", v)
+        except TimeoutError:
+            res["second"] = ("timeout", None)
+        except ERR.RetryableError as e:
+            res["second"] = ("retryable", e.code)
+        return res
+
+    out = sm.run_real(script, both, T1 + T2 + 700) if real else run_stub(script, both)
+    if out.kind != "result":
+        return "calls-ended-otherwise:" + str(out.kind) + ":" + str(out.text)
+    res = out.value
+    want1 = ("timeout", "retryable", "result")[first_end]
+    if res.get("first", (None,))[0] != want1:
+        return "first-call:wrong-outcome:" + str(res.get("first", (None,))[0])
+    k2, v2 = res.get("second", (None, None))
+    if k2 != "result":
+        return "second-call:did-not-complete-with-its-response:" + str(k2)
+    if not same_json(v2, {"v": 1}):
+        return "second-call:not-the-first-response-bearing-its-id"
+    reqs = [dump(m) for _, m in out.wire]
+    if len(reqs) != 2 or reqs[0].get("id") != idA or reqs[1].get("id") != id2:
+        return "wire:not-one-request-per-call"
+    return "ok"
+
+
+def two_calls(first_end, reuse, g0, g1, g2, T1):
+    return _two_calls(first_end, reuse, g0, g1, g2, T1, False)
+
+
+def two_calls_real(first_end, reuse, g0, g1, g2, T1):
+    return _two_calls(first_end, reuse, g0, g1, g2, T1, True)
